@@ -262,6 +262,8 @@ impl Prop for C12 {
         ];
         // depth 4: one offset assignment in quick, all nine in thorough
         v.push(GenSpec::enumerated("words-depth4", 38416 * tier.pick(1, 9)));
+        // beyond the stated depth bound, thorough only: all 14^5 words with one offset assignment
+        v.push(GenSpec::enumerated("words-depth5", 537_824 * tier.pick(0, 1)));
         v.push(GenSpec::random("large-coordinates", tier.pick(20_000, 1_000_000)));
         v.push(GenSpec::random("general-angles", tier.pick(20_000, 1_000_000)));
         v
@@ -272,7 +274,7 @@ impl Prop for C12 {
         match gen.as_str() {
             g if g.starts_with("words-depth") => {
                 let depth: usize = g["words-depth".len()..].parse().unwrap();
-                let nvar = if depth == 4 { cx.tier.pick(1, 9) } else { 9 };
+                let nvar = if depth == 4 { cx.tier.pick(1, 9) } else if depth == 5 { 1 } else { 9 };
                 let word = self.word_from_index(cx.n / nvar, depth, (cx.n % nvar) as usize);
                 cx.nontrivial(cx.n * 8 + depth as u64);
                 self.check_word(cx, &word, &grid);
